@@ -89,10 +89,40 @@ def integer(depth: int) -> st.SearchStrategy:
 NFC_PAIRS = [("\u00e9", "e\u0301"), ("\u00c5", "A\u030a"), ("\u00c5", "\u212b"), ("\u1e69", "s\u0323\u0307"), ("\u1e69", "s\u0307\u0323"), ("\uac00", "\u1100\u1161")]
 
 
+def _nfc_classes() -> typing.Dict[str, typing.List[typing.Tuple[str, str]]]:
+    """Every code point that is not its own NFC / NFD form, paired with that form and stratified by the shape of the mapping
+    (the classes are sampled uniformly, so the handful of mappings onto pure ASCII are not drowned by 11k Hangul syllables)."""
+    import unicodedata
+
+    out: typing.Dict[str, typing.List[typing.Tuple[str, str]]] = {"ascii-singleton": [], "singleton": [], "ascii-base": [], "composed": [], "hangul": [], "reordered": list(NFC_PAIRS[3:5])}
+    for cp in list(range(0x80, 0xD800)) + list(range(0xE000, 0x30000)):
+        c = chr(cp)
+        n = unicodedata.normalize("NFC", c)
+        d = unicodedata.normalize("NFD", c)
+        if n != c:
+            out["ascii-singleton" if n.isascii() else "singleton" if len(n) == 1 else "composed"].append((c, n))
+        if d != c and d != n:
+            if 0xAC00 <= cp <= 0xD7A3:
+                out["hangul"].append((c, d))
+            else:
+                out["ascii-base" if d[0].isascii() else "composed"].append((c, d))
+    return {k: v for k, v in out.items() if v}
+
+
+_NFC_CLASSES: typing.Dict[str, typing.List[typing.Tuple[str, str]]] = {}
+
+
+def nfc_pair() -> st.SearchStrategy:
+    if not _NFC_CLASSES:
+        _NFC_CLASSES.update(_nfc_classes())
+    names = sorted(_NFC_CLASSES)
+    return st.tuples(st.sampled_from(names), st.integers(0, 10**6)).map(lambda t: _NFC_CLASSES[t[0]][t[1] % len(_NFC_CLASSES[t[0]])])
+
+
 def nfc_comparison() -> st.SearchStrategy:
     """Canonically equivalent strings spelled differently: == must hold (the Specification compares NFC-normalised)."""
-    return st.tuples(st.sampled_from(NFC_PAIRS), st.sampled_from(["==", "!="]), st.booleans(), STYLE, st.sampled_from(["", "x", "'"])).map(
-        lambda t: ["bin", t[1], ["str", t[4] + (t[0][1] if t[2] else t[0][0]), t[3]], ["str", t[4] + (t[0][0] if t[2] else t[0][1]), t[3] + 1]]
+    return st.tuples(st.one_of(st.sampled_from(NFC_PAIRS), nfc_pair(), nfc_pair()), st.sampled_from(["==", "!="]), st.booleans(), STYLE, st.sampled_from(["", "x", "'"]), st.sampled_from(["", "", "z"])).map(
+        lambda t: ["bin", t[1], ["str", t[4] + (t[0][1] if t[2] else t[0][0]) + t[5], t[3]], ["str", t[4] + (t[0][0] if t[2] else t[0][1]) + t[5], t[3] + 1]]
     )
 
 
